@@ -227,7 +227,7 @@ pub fn oracle(d: &Damaged, o: &Observed) -> Verdict {
             }
             Verdict::Pass
         }
-        ReadMode::Bytes | ReadMode::WriteTo | ReadMode::TextUtf8 => {
+        ReadMode::Bytes | ReadMode::WriteTo | ReadMode::TextUtf8 | ReadMode::Json => {
             let c = &o.calls[0];
             if plan.read_mode_is_write_to() && !is_prefix(&o.output, &r.max_output) {
                 return violation(format!("prefix-violated:{}", tag), format!("write_to wrote bytes that are not a prefix of what the server sent ({} bytes)", o.output.len()));
@@ -241,9 +241,10 @@ pub fn oracle(d: &Damaged, o: &Observed) -> Verdict {
                             format!("{} returned Ok although the framing is incomplete/broken (reference: {:?})", c.what, r.end),
                         );
                     }
-                    let good = match &o.text {
-                        Some(t) => *t == String::from_utf8_lossy(&r.max_output),
-                        None => o.output == r.max_output,
+                    let good = match (&o.text, &plan.read_mode) {
+                        (Some(t), ReadMode::Json) => serde_json::from_slice::<serde_json::Value>(&r.max_output).map(|v| serde_json::to_string(&v).unwrap_or_default() == *t).unwrap_or(false),
+                        (Some(t), _) => *t == String::from_utf8_lossy(&r.max_output),
+                        (None, _) => o.output == r.max_output,
                     };
                     if !good {
                         return violation(format!("output-mismatch:{}", tag), format!("{} returned Ok with {} bytes, reference has {}", c.what, o.output.len(), r.max_output.len()));
